@@ -275,6 +275,19 @@ def slug(s):
 def main():
     if len(sys.argv) < 2:
         print("usage: check.py <Cxx> [quick|thorough]"); sys.exit(2)
+    if sys.argv[1] == "--replay":
+        d = json.load(open(sys.argv[2]))
+        print(json.dumps({k: v for k, v in d.items() if k != "witness"}, indent=1)[:6000])
+        w = d.get("witness") or {}
+        if w.get("found") and w.get("how", "").startswith("cd "):
+            print("re-running witness finder on the real code:", w["how"])
+            env = dict(os.environ); env["LUMINA_VERIF_DIR"] = VERIF
+            r = subprocess.run(w["how"], shell=True, capture_output=True, text=True, env=env)
+            mm = re.search(r"WITNESS (.*)", r.stdout + r.stderr)
+            print("WITNESS " + mm.group(1) if mm else "no witness reproduced")
+            sys.exit(1 if mm else 0)
+        print("witness:", json.dumps(w)[:2000])
+        sys.exit(0)
     pid = sys.argv[1]
     tier = sys.argv[2] if len(sys.argv) > 2 else os.environ.get("VERIF_TIER", "quick")
     seed = int(os.environ.get("VERIF_SEED", "0") or 0)
@@ -412,6 +425,30 @@ def main():
                 else: violations.append(("kani", kc["pkg"], f))
         trusted.update(kc.get("trusted", []))
 
+    # native bounded stand-ins (thorough tier): exhaustive enumerators on the real code
+    for nc in cfg.get("native", []):
+        if nc.get("tier", "thorough") == "thorough" and tier != "thorough":
+            continue
+        cmd = nc["cmd"].replace("{verif}", VERIF).replace("{repo}", REPO).replace("{target}", KANI_TARGET).replace("{name}", "")
+        env = dict(os.environ); env["LUMINA_VERIF_DIR"] = VERIF
+        try:
+            r = subprocess.run(cmd, shell=True, capture_output=True, text=True, timeout=nc.get("timeout", 1800), env=env)
+            out = r.stdout + r.stderr
+        except subprocess.TimeoutExpired:
+            undecided.append("native stand-in timed out"); continue
+        cmds.append(cmd)
+        mm = re.search(r"ENUM-OK cases=(\d+)", out)
+        mw = re.search(r"WITNESS (.*)", out)
+        if mm:
+            bounded.append({"harness": nc["name"], "bound": nc.get("bound", ""), "cases": int(mm.group(1)), "status": "SUCCESSFUL"})
+        elif mw:
+            f = {"fn": nc["name"], "kind": "native-enum", "clause": mw.group(1)[:300], "text": out[-3000:], "harness": nc["name"]}
+            k = match_known(known, pid, f)
+            if k: known_hits.append((k, f))
+            else: violations.append(("native", nc["name"], f))
+        else:
+            undecided.append(f"native stand-in {nc['name']} gave no verdict: {out[-600:]}")
+
     wall = time.time() - t0
     exit_code = 0
     lines_out = []
@@ -428,7 +465,9 @@ def main():
         path = os.path.join(REPLAY, name + ".json")
         witness = None
         wf = cfg.get("witness")
-        if wf:
+        if engine == "native":
+            witness = {"found": True, "input": f.get("clause"), "how": "native exhaustive enumerator on the real code", "output_tail": f.get("text", "")[-1500:]}
+        elif wf:
             witness = run_witness(wf, pid, f, path)
         rep = {"property": pid, "engine": engine, "unit": unit, "function": fn,
                "failed_obligations": [{"kind": x["kind"], "clause": x.get("clause"), "repo_location": x.get("repo"), "verifier_output": x.get("text")} for x in fl],
@@ -469,7 +508,8 @@ def main():
 def run_witness(wf, pid, f, path):
     """witness finder on the real code; returns dict(found, input, how)"""
     try:
-        cmd = wf["cmd"].replace("{fn}", slug(f.get("fn") or "")).replace("{verif}", VERIF).replace("{repo}", REPO)
+        bare = (f.get("fn") or "").split("::")[-1].strip()
+        cmd = wf["cmd"].replace("{fn}", slug(f.get("fn") or "")).replace("{name}", bare).replace("{verif}", VERIF).replace("{repo}", REPO).replace("{target}", KANI_TARGET)
         env = dict(os.environ); env["LUMINA_VERIF_DIR"] = VERIF
         r = subprocess.run(cmd, shell=True, capture_output=True, text=True, timeout=wf.get("timeout", 900), env=env)
         out = r.stdout + r.stderr
